@@ -116,6 +116,9 @@ func (c *SimClient) connIn(conn int) chan *pbx.ClientMsg {
 func (c *SimClient) deliver(msg *ServerComMessage) {
 	w := c.W
 	w.ev++
+	if msg.Data != nil {
+		msg.Data.Content = decodeContent(msg.Data.Content)
+	}
 	f := Frame{Ev: w.ev, At: w.rt.Now(), Inc: w.Inc, Msg: msg}
 	c.Frames = append(c.Frames, f)
 	id := frameID(msg)
@@ -232,6 +235,7 @@ func newSimWorld(sched simrt.Schedule, disk *simdb.Disk) *simWorld {
 	rt := simrt.NewWorld(ch)
 	w := &simWorld{rt: rt, Disk: disk, Inc: 1, Timeout: 20 * time.Second, created: map[*Sent]string{}}
 	rt.Ext = w
+	curWorld = w
 	simStore.reset()
 	simCred.reset()
 	simBoot(disk)
